@@ -52,7 +52,13 @@ func (s *breakerSlice) exec(t []string) string {
 		}
 		b.WithDelay(time.Duration(delay))
 		if dfn != -1 {
-			b.WithDelayFunc(func(exec failsafe.ExecutionAttempt[any]) time.Duration { return time.Duration(dfn) })
+			// -2: a delay function is registered but declines (returns -1, "use the configured delay"), as failsafehttp.DelayFunc does
+			// for a response without Retry-After
+			v := dfn
+			if v == -2 {
+				v = -1
+			}
+			b.WithDelayFunc(func(exec failsafe.ExecutionAttempt[any]) time.Duration { return time.Duration(v) })
 		}
 		b.OnStateChanged(func(e circuitbreaker.StateChangedEvent) {
 			m := e.Metrics()
@@ -154,7 +160,7 @@ func genBreaker(r *rand.Rand, n int, tier string, emit func(string) string) {
 		if r.Intn(12) == 0 {
 			delay = math.MaxInt64 // "stay open until closed by hand"
 		} else if r.Intn(3) == 0 {
-			dfn = pick(r, int64(0), 0, 1, int64(r.Intn(300)), delay, delay+1)
+			dfn = pick(r, int64(0), 0, 1, int64(r.Intn(300)), delay, delay+1, -2, -2)
 		}
 		now := int64(r.Intn(1000))
 		if r.Intn(2) == 0 {
